@@ -123,6 +123,7 @@ class SeqRunner:
         self.n = n
 
     def run(self, order: list[tuple[int, tuple]], storage: Any, ids: dict) -> list[tuple]:
+        storages = storage if isinstance(storage, list) else [storage] * self.n
         results: list = [None] * len(order)
         go = [threading.Semaphore(0) for _ in range(self.n)]
         back = threading.Semaphore(0)
@@ -134,7 +135,7 @@ class SeqRunner:
             for k, op in per[ti]:
                 go[ti].acquire()
                 try:
-                    results[k] = outcome(storage, op, ids)
+                    results[k] = outcome(storages[ti], op, ids)
                 except BaseException as e:  # pragma: no cover
                     results[k] = ("err", "harness:" + type(e).__name__)
                 back.release()
@@ -160,14 +161,28 @@ class Scenario:
         self._seq_cache: dict[tuple, tuple] = {}
         thx.set_instrumented(modules)
 
+    # hooks for process-level scenarios (own storage object per worker, other scheduler) ----------
+    def worker_storages(self, env: Env, n: int) -> list:
+        return [env.storage] * n
+
+    def make_sched(self, ch: Chooser, env: Env, storages: list) -> thx.Sched:
+        thx.replace_locks(env.storage)
+        if env.inner is not env.storage:
+            thx.replace_locks(env.inner)
+        return thx.Sched(ch)
+
+    def end_sched(self) -> None:
+        pass
+
+    def env_config(self) -> str:
+        return self.config
+
     # one concurrent execution --------------------------------------------------------------------
     def execute(self, ch: Chooser) -> dict:
-        env, ids = build(self.config, self.setup)
+        env, ids = build(self.env_config(), self.setup)
         try:
-            thx.replace_locks(env.storage)
-            if env.inner is not env.storage:
-                thx.replace_locks(env.inner)
-            sched = thx.Sched(ch)
+            storages = self.worker_storages(env, len(self.programs))
+            sched = self.make_sched(ch, env, storages)
             hist: list = []
 
             def mk(ti: int) -> Callable[[], None]:
@@ -175,12 +190,15 @@ class Scenario:
                     for k, op in enumerate(self.programs[ti]):
                         sched.point("op-start")
                         inv = sched.now()
-                        res = outcome(env.storage, op, ids)
+                        res = outcome(storages[ti], op, ids)
                         resp = sched.now()
                         hist.append((ti, k, inv, resp, res))
                 return body
 
-            threads = sched.run([mk(i) for i in range(len(self.programs))])
+            try:
+                threads = sched.run([mk(i) for i in range(len(self.programs))])
+            finally:
+                self.end_sched()
             errors = [t.error for t in threads if t.error]
             final = dump(env.storage)
             return {"hist": hist, "final": final, "deadlock": sched.deadlock, "errors": errors,
@@ -193,10 +211,10 @@ class Scenario:
         """order: tuple of (thread, k). Returns (results per call in that order, final dump)."""
         if order in self._seq_cache:
             return self._seq_cache[order]
-        env, ids = build(self.config, self.setup)
+        env, ids = build(self.env_config(), self.setup)
         try:
             calls = [(ti, self.programs[ti][k]) for ti, k in order]
-            res = SeqRunner(len(self.programs)).run(calls, env.storage, ids)
+            res = SeqRunner(len(self.programs)).run(calls, self.worker_storages(env, len(self.programs)), ids)
             out = (tuple(res), dump(env.storage))
         finally:
             env.close()
@@ -228,3 +246,44 @@ class Scenario:
             if all(h[c][2] == res[i] for i, c in enumerate(perm)) and final == ex["final"]:
                 return True, perm
         return False, None
+
+
+class SqlScenario(Scenario):
+    """Workers are "processes": each has its own RDBStorage (or _CachedStorage over its own
+    RDBStorage) on the shared SQLite file; scheduling points are SQL statements (vf/sqlx.py)."""
+
+    def __init__(self, config: str, setup: str, programs: list[list[tuple]]) -> None:
+        super().__init__(config, setup, programs, [])
+        self._opened: list = []
+
+    def env_config(self) -> str:
+        return "rdb"
+
+    def worker_storages(self, env: Env, n: int) -> list:
+        from optuna.storages._cached_storage import _CachedStorage
+
+        from . import sqlx
+
+        out = []
+        for _ in range(n):
+            if self.config == "rdb-shared" and out:
+                out.append(out[0])  # threads sharing ONE RDBStorage (own sessions/connections)
+                continue
+            r = backends.open_rdb(env.raw_path)
+            env._cleanup.append(r.engine.dispose)
+            sqlx.attach(r)
+            out.append(_CachedStorage(r) if self.config == "cached-procs" else r)
+        return out
+
+    def make_sched(self, ch: Chooser, env: Env, storages: list) -> thx.Sched:
+        from . import sqlx
+
+        sched = thx.Sched(ch)
+        self._world = sqlx.SqlWorld(sched)
+        sqlx.activate(self._world)
+        return sched
+
+    def end_sched(self) -> None:
+        from . import sqlx
+
+        sqlx.activate(None)
